@@ -125,17 +125,28 @@ for _b, _obj in (('json', 'Object'), ('toml', 'Table')):
         dict(id=f'Assign{_B}', file='src/assign.rs', fn='assign', mod=_b, impl=r"impl Assign for Value", lean=f'{_b}.assign', backend=_b,
              params=[('self', 'docself'), ('ptr', 'ptrself'), ('value', 'intoval')], ret='mutdoc', docres='res', rtype=ASG_T, imports=[f'AssignValue{_B}']),
     ]
+for _f, _ty, _ns in (('src/resolve.rs', 'resolveerr', 'resolve'), ('src/assign.rs', 'assignerr', 'assign')):
+    _N = _ns.capitalize()
+    FUNCS += [
+        dict(id=f'{_N}ErrPosition', file=_f, fn='position', impl=r"impl Error \{", lean=f'{_ns}.Error.position', params=[('self', 'errself:' + _ty)], ret='pure', rtype='Nat'),
+        dict(id=f'{_N}ErrOffset', file=_f, fn='offset', impl=r"impl Error \{", lean=f'{_ns}.Error.offset', params=[('self', 'errself:' + _ty)], ret='pure', rtype='Nat'),
+        dict(id=f'{_N}ErrLabels', file=_f, fn='labels', impl=r"impl Diagnostic for Error", lean=f'{_ns}.Error.labels',
+             params=[('self', 'errself:' + _ty), ('origin', 'bufref')], ret='pure', rtype='Option (Nat × Nat)', imports=[f'{_N}ErrPosition', f'{_N}ErrOffset'], errns=_ns),
+    ]
 # free functions of the crate that take a `&mut` into the document: (arity, result type); the document is threaded through them
 DOCCALLS = {'assign_array': (6, 'res(assigned;assignerr)'), 'assign_object': (4, 'assigned'), 'assign_scalar': (3, 'assigned'),
             'assign_value': (3, 'res(opt(val);assignerr)')}
 ENUM_FIELDS = {'Assigned::Continue': ['next_dest', 'same_value']}
+for _p in ('Self', 'Error'):
+    for _c in ('FailedToParseIndex', 'OutOfBounds'): ENUM_FIELDS[f'{_p}::{_c}'] = ['position', 'offset', 'source']
+    for _c in ('NotFound', 'Unreachable'): ENUM_FIELDS[f'{_p}::{_c}'] = ['position', 'offset']
 ENUM_PREFIX = {'index': 'Index', 'bound': 'Bound', 'assigned': 'Assigned'}
 SIBLINGS = {'split_back': ('Pointer.split_back', 'opt(tuple:ptrself,tok)'), 'split_front': ('Pointer.split_front', 'opt(tuple:tok,ptrself)'), 'is_root': ('Pointer.is_root', 'bool'), 'count': ('Pointer.count', 'nat'), 'split_at': ('Pointer.split_at', 'opt(tuple:bytes,bytes)'),
             'front': ('Pointer.front', 'opt(bytes)'), 'back': ('Pointer.back', 'opt(bytes)')}
 
 LEANTY = {'nat': 'Nat', 'bool': 'Bool', 'bytes': 'Bytes', 'cow': 'Cow', 'optnat': 'Option Nat', 'toklist': 'List Bytes',
           'tok': 'Bytes', 'index': 'Index', 'bound': 'Bound', 'ptr': 'Bytes', 'span': 'Span', 'tokself': 'Bytes',
-          'intocow': 'Bytes', 'unit': 'Unit', 'ptrself': 'Bytes', 'vref': 'Loc × Val', 'vroot': 'Val', 'bufself': 'Bytes', 'intotoken': 'Bytes', 'asrefptr': 'Bytes', 'docself': 'Val', 'val': 'Val', 'aref': 'Loc × List Val', 'oref': 'Loc × List (Bytes × Val)', 'assigned': 'Assigned', 'intoval': 'Val', 'kvlist': 'List (Bytes × Val)', 'vallist': 'List Val'}
+          'intocow': 'Bytes', 'unit': 'Unit', 'ptrself': 'Bytes', 'vref': 'Loc × Val', 'vroot': 'Val', 'bufself': 'Bytes', 'intotoken': 'Bytes', 'asrefptr': 'Bytes', 'docself': 'Val', 'val': 'Val', 'aref': 'Loc × List Val', 'oref': 'Loc × List (Bytes × Val)', 'assigned': 'Assigned', 'intoval': 'Val', 'resolveerr': 'ResolveErr', 'assignerr': 'AssignErr', 'bufref': 'Bytes', 'kvlist': 'List (Bytes × Val)', 'vallist': 'List Val'}
 
 # enums the subset may match on / construct: type tag -> [(lean ctor, [rust paths], [field types])]
 ENUMS = {
@@ -143,6 +154,11 @@ ENUMS = {
     'bound': [('.included', ['Bound::Included'], ['nat']), ('.excluded', ['Bound::Excluded'], ['nat']),
               ('.unbounded', ['Bound::Unbounded'], [])],
     'optnat': [('some', ['Some'], ['nat']), ('none', ['None'], [])],
+    'resolveerr': [('.failedToParseIndex', ['Self::FailedToParseIndex', 'Error::FailedToParseIndex'], ['nat', 'nat', 'pie']),
+                   ('.outOfBounds', ['Self::OutOfBounds', 'Error::OutOfBounds'], ['nat', 'nat', 'ooberr']),
+                   ('.notFound', ['Self::NotFound', 'Error::NotFound'], ['nat', 'nat']), ('.unreachable', ['Self::Unreachable', 'Error::Unreachable'], ['nat', 'nat'])],
+    'assignerr': [('.failedToParseIndex', ['Self::FailedToParseIndex', 'Error::FailedToParseIndex'], ['nat', 'nat', 'pie']),
+                  ('.outOfBounds', ['Self::OutOfBounds', 'Error::OutOfBounds'], ['nat', 'nat', 'ooberr'])],
     'assigned': [('.done', ['Assigned::Done'], ['opt(val)']), ('.cont', ['Assigned::Continue'], ['vref', 'val'])],
     'vref': [('.arr', ['Value::Array'], ['aref']), ('.obj', ['Value::Object', 'Value::Table'], ['oref']), ('.scalar', ['<scalar>'], ['atom'])],
 }
@@ -207,6 +223,18 @@ class Fn:
                 for (fl, e) in n[2]:
                     pass
         self.walk(node, f); return names
+    def needed(self, node):
+        """names mentioned, not counting the text argument of `Label::new`"""
+        names = set()
+        def go(n):
+            if isinstance(n, list):
+                for c in n: go(c)
+            elif isinstance(n, tuple) and n:
+                if n[0] == 'path' and len(n[1]) == 1: names.add(n[1][0])
+                if n[0] == 'call' and n[1] == ('path', ['Label', 'new']) and len(n[2]) == 3:
+                    go(n[2][1]); go(n[2][2]); return
+                for c in n: go(c)
+        go(node); return names
     def escapes(self, node, in_loop=False):
         """does control leave `node` other than by falling off its end? (return / ? anywhere, break/continue of
         the enclosing loop)"""
@@ -412,6 +440,9 @@ class Fn:
                 if is_opt(ta) and self.retkind == 'mutdoc' and not self.spec.get('docres'):
                     v = self.fresh('v')
                     return paren(f"match {a} with\n| none => {ctx.ret('.ok none')}\n| some {v} =>\n{ind(k(v, opt_inner(ta)))}")
+                if is_opt(ta) and self.retkind == 'pure' and self.rtype.startswith('Option'):
+                    v = self.fresh('v')
+                    return paren(f"match {a} with\n| none => {ctx.ret('none')}\n| some {v} =>\n{ind(k(v, opt_inner(ta)))}")
                 if ta != 'optnat': raise Unsupported("? on " + ta)
                 if self.retkind != 'optres': raise Unsupported("? in a function not returning Option")
                 v = self.fresh('v')
@@ -482,6 +513,11 @@ class Fn:
                         return paren(f"match ({fn} self_doc {' '.join(acc)}) with\n| (self_doc, {r}) =>\n{ind(k(r, DOCCALLS[ps][1]))}")
                     return self.E(args[i], env, ctx, lambda a, ta: god(i + 1, acc + ['(([] : Loc), self_doc)' if ta == 'docref' else a]))
                 return god(0, [])
+            if ps == 'Label::new' and len(args) == 3:
+                return self.E(args[1], env, ctx, lambda o, to: self.E(args[2], env, ctx,
+                              lambda l, tl: k(f"({o}, {l})", 'label') if (to == 'nat' and tl == 'nat') else self.bad("Label::new(_, " + to + ", " + tl + ")")))
+            if ps in ('Box::new', 'once', 'iter::once', 'core::iter::once') and len(args) == 1:
+                return self.E(args[0], env, ctx, lambda a, ta: k(a, ta) if ta == 'label' else self.bad(ps + "(" + ta + ")"))
             if ps == 'Table::default' and not args: return k('TABLE0', 'table0')
             if ps in ('Map::new', 'Table::new', 'toml::Table::new', 'serde_json::Map::new') and not args: return k('([] : List (Bytes × Val))', 'kvlist')
             if ps == 'Value::Array' and len(args) == 1:
@@ -720,6 +756,11 @@ class Fn:
                     c = self.fresh('c')
                     return k(f"(Option.map (fun {c} => ({r}.1 ++ [Step.key {a}], {c})) (lookup {a} {r}.2))", 'opt(vref)')
                 return self.E(args[0], env, ctx, aft_key)
+            if tr in ('resolveerr', 'assignerr') and name in ('position', 'offset') and not args and self.spec.get('errns'):
+                return k(f"({self.spec['errns']}.Error.{name} {r})", 'nat')
+            if tr == 'bufref' and name == 'get' and len(args) == 1 and args[0][0] != 'range':
+                return self.E(args[0], env, ctx, lambda i, ti: k(f"(getToken {r} {i})", 'opt(tok)') if ti == 'nat' else self.bad("get(" + ti + ")"))
+            if tr == 'bufref' and name in ('as_str', 'as_ref') and not args: return k(r, 'bytes')
             if tr == 'index' and name == 'for_len_incl' and len(args) == 1:
                 return self.E(args[0], env, ctx, lambda a, ta: k(f"(Index.for_len_incl {r} {a})", mk_res('nat', 'ooberr')))
             if tr == 'oref' and name == 'entry' and len(args) == 1:
@@ -997,6 +1038,13 @@ class Fn:
             vac = f"let {vn} := {en}\n" + body_k(vpl, ev)
             return paren(f"let {en} := {s}\nmatch lookup {en}.2 {en}.1.2 with\n| some {c} =>\n{ind(occ)}\n| none =>\n{ind(vac)}")
         if ty in ENUMS:
+            rows_x = []
+            for (ps_, g, pl) in rows:
+                q = self.strip_ref(ps_[col])
+                if q[0] == 'por':
+                    for alt in q[1]: rows_x.append((ps_[:col] + [alt] + ps_[col + 1:], g, pl))
+                else: rows_x.append((ps_, g, pl))
+            rows = rows_x
             alts = []
             smatch = f"{s}.2" if ty == 'vref' else s
             for ci, (lc, rps, fts) in enumerate(ENUMS[ty]):
@@ -1066,12 +1114,14 @@ class Fn:
         if kind == 'let':
             pat, mut, init = st[1], st[2], st[3]
             if init is None: raise Unsupported("let without initialiser")
+            if pat[0] == 'pbind' and self.rtype == 'Option (Nat × Nat)' and pat[1] not in self.needed(stmts[1:]):
+                return rest(env)          # only the label's text uses it; the text is not part of the model
             if pat[0] == 'pbind':
                 def after(a, ta, envv=None):
                     env2 = dict(envv if envv is not None else env); env2[pat[1]] = 'bytes' if ta in ('tok', 'ptrself') and mut else ta
                     if a == pat[1]: return rest(env2)
                     return f"let {pat[1]} := {a}\n{rest(env2)}"
-                if init[0] in ('if', 'iflet', 'block') and (self.effectful(init) or self.has_stmts(init)):
+                if init[0] in ('if', 'iflet', 'block') and (self.effectful(init) or self.has_stmts(init) or init[0] == 'if'):
                     return self.V(init, env, ctx, lambda a, ta, e3: after(a, ta, e3))
                 return self.E(init, env, ctx, after)
             if pat[0] == 'ptuple' and all(q[0] == 'pbind' for q in pat[1]):
@@ -1325,6 +1375,8 @@ class Fn:
             return self.C(e, env, ctx, ctx.ret('.ok true'), ctx.ret('.ok false'))
         if rk == 'pure' and self.rtype.startswith('Option') and t == 'path' and e[1] == ['None']:
             return ctx.ret('none')
+        if rk == 'pure' and self.rtype == 'Option (Nat × Nat)':
+            return self.E(e, env, ctx, lambda a, ta: ctx.ret(a) if ta == 'opt(label)' else self.bad("returning " + ta))
         if rk == 'pure':
             want = {'Cow': ('cow',), 'Nat': ('nat',), 'Bool': ('bool',)}.get(self.rtype)
             def after(a, ta):
@@ -1508,6 +1560,8 @@ class Fn:
             elif rep == 'docself':
                 # `&mut self` of a document: the mutable variable `self_doc`; every exit returns it with the result
                 lparams.append(('self_doc', 'val')); env['self_doc'] = 'val'; env['self'] = 'alias:self_doc:docref'
+            elif rep.startswith('errself:'):
+                lparams.append(('self', rep.split(':')[1])); env['self'] = rep.split(':')[1]
             elif rep in ('vrefmut', 'arefmut', 'orefmut'):
                 # a `&mut` into the document: (location, node); the document itself is the hidden first parameter `self_doc`
                 if 'self_doc' not in env:
